@@ -490,7 +490,21 @@ def s_enumerate(I, args, kw):
     return enumerate(list(I.iterate(args[0])), *args[1:], **kw)
 
 def s_zip(I, args, kw):
-    return zip(*[list(I.iterate(a)) for a in args])
+    # lazy, like the builtin: one item is pulled from each argument in turn and the first
+    # exhausted argument stops the zip (a shared iterator must not be drained)
+    its = [iter(I.iterate(a)) for a in args]
+    def gen():
+        if not its:
+            return
+        while True:
+            row = []
+            for it in its:
+                try:
+                    row.append(next(it))
+                except StopIteration:
+                    return
+            yield tuple(row)
+    return gen()
 
 def s_reversed(I, args, kw):
     x = args[0]
